@@ -227,26 +227,96 @@ structure SettingsOK (s : Frame.SettingsVal) : Prop where
   frame : 16384 ≤ s.frameSize ∧ s.frameSize ≤ 16777215
   pairs : ∀ p ∈ s.pairs, p.1 = Gen.c_MaxFrameSize → 16384 ≤ p.2 ∧ p.2 ≤ 16777215
 
-theorem settingsRead_ok (b : Bytes) (s0 s : Frame.SettingsVal) (h0 : SettingsOK s0)
-    (h : Frame.settingsRead b s0 = .inl (some s)) : SettingsOK s := by
-  fun_induction Frame.settingsRead b s0
-  all_goals first
-    | (cases h; done)
-    | (simp only [Sum.inl.injEq, Option.some.injEq] at h; subst h; exact h0)
-    | skip
-  all_goals (
-    rename_i ih
-    refine ih ⟨?_, ?_, ?_⟩ h
-    · first | exact h0.win | (show _ ≤ 2147483647; rename_i hv; simp at hv; omega)
-    · first | exact h0.frame | (show 16384 ≤ _ ∧ _ ≤ 16777215; rename_i hv; simp at hv; omega)
-    · intro p hp hk
-      change p ∈ _ ++ [(_, _)] at hp
-      simp only [List.mem_append, List.mem_singleton] at hp
-      rcases hp with hp | rfl
-      · exact h0.pairs p hp hk
-      · simp only [Gen.c_MaxFrameSize, Gen.c_HeaderTableSize, Gen.c_EnablePush, Gen.c_MaxConcurrentStreams,
-          Gen.c_MaxWindowSize, Gen.c_MaxHeaderListSize] at *
-        first | omega | (rename_i hv; simp at hv; omega))
+theorem SettingsOK.push {s : Frame.SettingsVal} (h : SettingsOK s) (key v : Nat)
+    (hk : key = Gen.c_MaxFrameSize → 16384 ≤ v ∧ v ≤ 16777215) :
+    ∀ p ∈ s.pairs ++ [(key, v)], p.1 = Gen.c_MaxFrameSize → 16384 ≤ p.2 ∧ p.2 ≤ 16777215 := by
+  intro p hp hpk
+  simp only [List.mem_append, List.mem_singleton] at hp
+  rcases hp with hp | rfl
+  · exact h.pairs p hp hpk
+  · exact hk hpk
+
+/-- (plain recursion over the payload, six octets at a time; `fun_induction` is avoided on purpose: the auxiliary
+declarations it generates for `settingsRead` would be generated a second time by another proof file of the library) -/
+theorem settingsRead_ok : ∀ (b : Bytes) (s0 s : Frame.SettingsVal), SettingsOK s0 →
+    Frame.settingsRead b s0 = .inl (some s) → SettingsOK s
+  | k0 :: k1 :: v0 :: v1 :: v2 :: v3 :: rest, s0, s, h0, h => by
+    rw [Frame.settingsRead] at h
+    simp only at h
+    have other : ∀ key v : Nat, key ≠ Gen.c_MaxFrameSize →
+        ∀ p ∈ s0.pairs ++ [(key, v)], p.1 = Gen.c_MaxFrameSize → 16384 ≤ p.2 ∧ p.2 ≤ 16777215 :=
+      fun key v hne => h0.push key v (fun e => absurd e hne)
+    have hc1 : Gen.c_HeaderTableSize ≠ Gen.c_MaxFrameSize := by decide
+    have hc2 : Gen.c_EnablePush ≠ Gen.c_MaxFrameSize := by decide
+    have hc3 : Gen.c_MaxConcurrentStreams ≠ Gen.c_MaxFrameSize := by decide
+    have hc4 : Gen.c_MaxWindowSize ≠ Gen.c_MaxFrameSize := by decide
+    split at h
+    · rename_i hk
+      refine settingsRead_ok rest _ s ⟨?_, ?_, ?_⟩ h
+      · exact h0.win
+      · exact h0.frame
+      · exact other _ _ (by rw [hk]; exact hc1)
+    · split at h
+      · rename_i hk
+        split at h
+        · cases h
+        · refine settingsRead_ok rest _ s ⟨?_, ?_, ?_⟩ h
+          · exact h0.win
+          · exact h0.frame
+          · exact other _ _ (by rw [hk]; exact hc2)
+      · split at h
+        · rename_i hk
+          refine settingsRead_ok rest _ s ⟨?_, ?_, ?_⟩ h
+          · exact h0.win
+          · exact h0.frame
+          · exact other _ _ (by rw [hk]; exact hc3)
+        · split at h
+          · rename_i hk
+            split at h
+            · cases h
+            · rename_i hv
+              refine settingsRead_ok rest _ s ⟨?_, ?_, ?_⟩ h
+              · simp only; simp at hv; omega
+              · exact h0.frame
+              · exact other _ _ (by rw [hk]; exact hc4)
+          · split at h
+            · rename_i hk
+              split at h
+              · cases h
+              · rename_i hv
+                refine settingsRead_ok rest _ s ⟨?_, ?_, ?_⟩ h
+                · exact h0.win
+                · simp only; simp at hv; omega
+                · refine h0.push _ _ (fun _ => ?_)
+                  simp at hv; omega
+            · rename_i hk5
+              split at h
+              · refine settingsRead_ok rest _ s ⟨?_, ?_, ?_⟩ h
+                · exact h0.win
+                · exact h0.frame
+                · exact other _ _ hk5
+              · refine settingsRead_ok rest _ s ⟨?_, ?_, ?_⟩ h
+                · exact h0.win
+                · exact h0.frame
+                · exact other _ _ hk5
+  | [], s0, s, h0, h => by
+    have e : Frame.settingsRead [] s0 = .inl (some s0) := rfl
+    rw [e] at h; cases h; exact h0
+  | [a1], s0, s, h0, h => by
+    have e : Frame.settingsRead [a1] s0 = .inl (some s0) := rfl
+    rw [e] at h; cases h; exact h0
+  | [a1, a2], s0, s, h0, h => by
+    have e : Frame.settingsRead [a1, a2] s0 = .inl (some s0) := rfl
+    rw [e] at h; cases h; exact h0
+  | [a1, a2, a3], s0, s, h0, h => by
+    have e : Frame.settingsRead [a1, a2, a3] s0 = .inl (some s0) := rfl
+    rw [e] at h; cases h; exact h0
+  | [a1, a2, a3, a4], s0, s, h0, h => by
+    have e : Frame.settingsRead [a1, a2, a3, a4] s0 = .inl (some s0) := rfl
+    rw [e] at h; cases h; exact h0
+  | [a1, a2, a3, a4, a5], s0, s, h0, h => by
+    have e : Frame.settingsRead [a1, a2, a3, a4, a5] s0 = .inl (some s0) := rfl
+    rw [e] at h; cases h; exact h0
 
 /-- a SETTINGS frame, if the frame is one, carries values `Settings.Read` admits -/
 def FrameOK (f : Frame.Frame) : Prop := ∀ s, f.body = .settings s → SettingsOK s
